@@ -46,7 +46,12 @@ Inductive pc :=
 | MUnlock               (* unlock *)
 | RLoad                 (* rescheduleCleanUpIfIncomplete: load drainStatus *)
 | Done
-| RdLoad.               (* a reader in afterRead: shouldDrainBuffers loads drainStatus; argument 1 = the read buffer was full *)
+| RdLoad                (* a reader in afterRead: shouldDrainBuffers loads drainStatus; argument 1 = the read buffer was full *)
+| GLock                 (* GetMaximum / WeightedSize: Lock (blocking) *)
+| GLoad                 (* ... load drainStatus under the lock: maintenance only if it is "required" *)
+| ILock                 (* InvalidateAll: Lock (blocking) *)
+| IDrain.               (* ... its own loop over the write buffer (no status access): pop one event, or go on to
+                           delete the entries and unlock when the buffer is empty *)
 
 Global Instance pc_eq_dec : EqDecision pc.
 Proof. solve_decision. Defined.
@@ -56,14 +61,14 @@ Definition pc_to_nat (p : pc) : nat :=
   | WPush => 0 | WLoad => 1 | WCasReq => 2 | WCasP2R => 3 | SLoad => 4 | STry => 5 | SLoad2 => 6
   | SUnlockRet => 7 | SStore => 8 | SSpawn => 9 | SCas => 10 | SUnlock => 11 | DTry => 12 | DCas => 13
   | DLock => 14 | CLock => 15 | MStore => 16 | MDrain => 17 | MLoad => 18 | MCas => 19 | MStoreReq => 20
-  | MUnlock => 21 | RLoad => 22 | Done => 23 | RdLoad => 24
+  | MUnlock => 21 | RLoad => 22 | Done => 23 | RdLoad => 24 | GLock => 25 | GLoad => 26 | ILock => 27 | IDrain => 28
   end.
 Definition nat_to_pc (n : nat) : pc :=
   match n with
   | 0 => WPush | 1 => WLoad | 2 => WCasReq | 3 => WCasP2R | 4 => SLoad | 5 => STry | 6 => SLoad2
   | 7 => SUnlockRet | 8 => SStore | 9 => SSpawn | 10 => SCas | 11 => SUnlock | 12 => DTry | 13 => DCas
   | 14 => DLock | 15 => CLock | 16 => MStore | 17 => MDrain | 18 => MLoad | 19 => MCas | 20 => MStoreReq
-  | 21 => MUnlock | 22 => RLoad | 24 => RdLoad | _ => Done
+  | 21 => MUnlock | 22 => RLoad | 24 => RdLoad | 25 => GLock | 26 => GLoad | 27 => ILock | 28 => IDrain | _ => Done
   end.
 Global Instance pc_countable : Countable pc.
 Proof. apply (inj_countable' pc_to_nat nat_to_pc). intros []; reflexivity. Defined.
@@ -137,6 +142,10 @@ Definition dstep (s : dstate) (i : nat) : option dstate :=
           | 1 => go ds lock wb SLoad a
           | _ => go ds lock wb Done a
           end
+      | GLock => if lock then None else go ds true wb GLoad a
+      | GLoad => if Nat.eqb ds 1 then go ds lock wb MStore a else go ds lock wb MUnlock a
+      | ILock => if lock then None else go ds true wb IDrain a
+      | IDrain => match wb with O => go ds lock wb MUnlock a | S n => go ds lock n IDrain a end
       end
   end.
 
@@ -158,6 +167,13 @@ Definition dinit (w c : nat) : dstate := mk 0 false 0 (repeat (WPush, 0) w ++ re
 (* ... plus [rd] readers whose read is buffered and [rf] readers that find the read buffer full *)
 Definition dinitR (w c rd rf : nat) : dstate :=
   mk 0 false 0 (repeat (WPush, 0) w ++ repeat (CLock, 0) c ++ repeat (RdLoad, 0) rd ++ repeat (RdLoad, 1) rf).
+
+(* ... plus [g] callers of GetMaximum / WeightedSize and [iv] callers of InvalidateAll.  SetMaximum and the
+   Hottest / Coldest views are CleanUp callers as far as this protocol goes: Lock, maintenance, Unlock,
+   rescheduleCleanUpIfIncomplete. *)
+Definition dinitA (w c rd rf g iv : nat) : dstate :=
+  mk 0 false 0 (repeat (WPush, 0) w ++ repeat (CLock, 0) c ++ repeat (RdLoad, 0) rd ++ repeat (RdLoad, 1) rf ++
+                repeat (GLock, 0) g ++ repeat (ILock, 0) iv).
 
 (* ---- exhaustive exploration *)
 Fixpoint explore (fuel : nat) (frontier : list dstate) (seen : gset dstate) : option (gset dstate) :=
